@@ -82,7 +82,7 @@ def outcomes(out):
     return res
 
 
-def session(d, args=(), stdin=None, env=None, noplug=True, xdist=False, preexec=None, timeout=120):
+def session(d, args=(), stdin=None, env=None, noplug=True, xdist=False, preexec=None, timeout=120, bytecode=False):
     """Run one real session in project directory d. Returns dict(rc, out, outcomes)."""
     d = str(d)
     if stdin is not None:
@@ -105,7 +105,9 @@ def session(d, args=(), stdin=None, env=None, noplug=True, xdist=False, preexec=
             sys.stdout = open(1, "w", closefd=False)
             sys.stderr = open(2, "w", closefd=False)
             warm.scrub_env(env)
-            sys.dont_write_bytecode = True
+            sys.dont_write_bytecode = not bytecode
+            if bytecode:
+                os.environ.pop("PYTHONDONTWRITEBYTECODE", None)
             sys.path.insert(0, d)
             import signal
 
@@ -142,7 +144,8 @@ def session(d, args=(), stdin=None, env=None, noplug=True, xdist=False, preexec=
         os.killpg(pid, 9)
     except OSError:
         pass
-    shutil.rmtree(os.path.join(d, "__pycache__"), ignore_errors=True)
+    if not bytecode:
+        shutil.rmtree(os.path.join(d, "__pycache__"), ignore_errors=True)
     try:
         with open(os.path.join(d, ".out"), errors="replace") as f:
             out = f.read()
